@@ -9,7 +9,8 @@ package main
 //
 // Output: lean/RisorModel/Generated/C12.lean with
 //   facts     : Facts          how getOS / initContext / Clone / cloneCall* / importModule /
-//                              the entry points / GetDefaultOS are written
+//                              the entry points / GetDefaultOS are written, and how risor.Eval /
+//                              EvalCode / Call configure an existing machine (Config.VMOpts)
 //   inventory : List FnEntry   for every function of modules/{os,filepath,fmt}, builtins and
 //                              object/file*.go that touches an OS at all: the OS-touching members
 //                              of Go packages it uses, the methods it calls on risor os.OS values
@@ -301,6 +302,27 @@ func c12GetOSOrder(fset *token.FileSet, fd *ast.FuncDecl) []string {
 	return order
 }
 
+// c12WithOSGuarded: Config.VMOpts mentions vm.WithOS exactly as `vm.WithOS(cfg.os)` and only inside the
+// body of `if cfg.os != nil { … }` (no else branch), at least once.
+func c12WithOSGuarded(fset *token.FileSet, fd *ast.FuncDecl) bool {
+	total, guarded := 0, 0
+	ast.Inspect(fd.Body, func(n ast.Node) bool {
+		if c, ok := n.(*ast.CallExpr); ok && c12Str(fset, c.Fun) == "vm.WithOS" {
+			total++
+		}
+		if is, ok := n.(*ast.IfStmt); ok && is.Init == nil && is.Else == nil && c12Str(fset, is.Cond) == "cfg.os != nil" {
+			ast.Inspect(is.Body, func(m ast.Node) bool {
+				if c, ok := m.(*ast.CallExpr); ok && c12Str(fset, c) == "vm.WithOS(cfg.os)" {
+					guarded++
+				}
+				return true
+			})
+		}
+		return true
+	})
+	return total > 0 && total == guarded
+}
+
 func c12_leanBool(b bool) string {
 	if b {
 		return "true"
@@ -364,6 +386,20 @@ func c12_genC12(repo string) string {
 	objFiles := c12ParseDir(fset, filepath.Join(repo, "object"), func(n string) bool { return n == "dynamic_attr.go" })
 	resolve := c12Str(fset, c12FindFunc(objFiles, "d", "ResolveAttr").Body)
 	dynCaches := strings.Contains(resolve, "d.value = attr") || strings.Contains(resolve, "return d.value")
+
+	// risor's top-level API on an existing machine (risor.WithVM): Config.VMOpts turns the configuration
+	// into VM options, Eval/EvalCode/Call hand them to RunCodeOnVM/RunCode, RunCode applies them
+	rootFiles := c12ParseDir(fset, repo, func(n string) bool { return n == "risor.go" || n == "risor_config.go" })
+	vmOpts := c12FindFunc(rootFiles, "cfg", "VMOpts")
+	cfgOSOnlyIfSet := c12WithOSGuarded(fset, vmOpts)
+	apiApplies := c12HasCall(fset, c12FindFunc(rootFiles, "", "Eval"), "vm.RunCodeOnVM(ctx, cfg.vm, main, cfg.VMOpts()...)") &&
+		c12HasCall(fset, c12FindFunc(rootFiles, "", "EvalCode"), "vm.RunCodeOnVM(ctx, cfg.vm, main, cfg.VMOpts()...)") &&
+		c12HasCall(fset, c12FindFunc(rootFiles, "", "Call"), "machine.RunCode(ctx, main, cfg.VMOpts()...)") &&
+		strings.Contains(c12Str(fset, c12FindFunc(rootFiles, "", "Call").Body), "machine = cfg.vm") &&
+		c12HasCall(fset, c12FindFunc(vmFiles, "", "RunCodeOnVM"), "vm.RunCode(ctx, code, opts...)") &&
+		c12HasCall(fset, c12FindFunc(vmFiles, "vm", "RunCode"), "vm.applyOptions(opts)") &&
+		strings.Contains(c12Str(fset, c12FindFunc(vmFiles, "vm", "applyOptions").Body), "for _, opt := range options { opt(vm) }") &&
+		strings.Contains(c12Str(fset, c12FindFunc(vmFiles, "", "WithOS").Body), "vm.os = os")
 
 	// ---- inventory
 	ents := map[string]*c12Entry{}
@@ -476,7 +512,7 @@ func c12_genC12(repo string) string {
 
 	var b strings.Builder
 	b.WriteString("import RisorModel.C12.Model\nnamespace Risor.Generated.C12\nopen Risor.C12\n\n")
-	b.WriteString("/-- read from vm/vm.go (getOS, initContext, runCodeInternal, Call, Clone, cloneCallAsync, cloneCallSync,\n    importModule), os/os.go (WithOS, GetOS, GetDefaultOS) and the modules' GetOS, and\n    object/dynamic_attr.go (ResolveAttr) -/\n")
+	b.WriteString("/-- read from vm/vm.go (getOS, initContext, runCodeInternal, Call, Clone, cloneCallAsync, cloneCallSync,\n    importModule, RunCodeOnVM, RunCode, applyOptions, WithOS), os/os.go (WithOS, GetOS, GetDefaultOS) and the modules' GetOS,\n    object/dynamic_attr.go (ResolveAttr), risor.go (Eval, EvalCode, Call) and risor_config.go (Config.VMOpts) -/\n")
 	b.WriteString("def facts : Facts :=\n  { getOSOrder := [" + strings.Join(order, ", ") + "],\n")
 	b.WriteString("    initInstalls := " + c12_leanBool(initInstalls) + ",\n")
 	b.WriteString("    entryInits := " + c12_leanBool(entryInits) + ",\n")
@@ -485,7 +521,9 @@ func c12_genC12(repo string) string {
 	b.WriteString("    cloneCallInits := " + c12_leanBool(cloneCallInits) + ",\n")
 	b.WriteString("    importSameCtx := " + c12_leanBool(importSame) + ",\n")
 	b.WriteString("    moduleFromCtx := " + c12_leanBool(moduleFromCtx) + ",\n")
-	b.WriteString("    dynAttrCaches := " + c12_leanBool(dynCaches) + " }\n\n")
+	b.WriteString("    dynAttrCaches := " + c12_leanBool(dynCaches) + ",\n")
+	b.WriteString("    cfgOSOnlyIfSet := " + c12_leanBool(cfgOSOnlyIfSet) + ",\n")
+	b.WriteString("    apiAppliesOpts := " + c12_leanBool(apiApplies) + " }\n\n")
 	b.WriteString("/-- E9: functions of modules/{os,filepath,fmt}, builtins, object/file*.go that touch an OS -/\n")
 	b.WriteString("def inventory : List FnEntry := [\n")
 	for i, k := range keys {
